@@ -116,15 +116,18 @@ package datatypes
 // ghost: the operation count (opID.Seq) recorded in the rollback point when it was last taken. A rollback restores
 // the identifiers from the rollback point, so a point taken before the identifiers were reset brings stale numbers back.
 //@ ghost field TransactionDatatype.$rbSeq mathint
+// ... and the datatype identifier (DUID) recorded in it
+//@ ghost field TransactionDatatype.$rbID string
 //@ func (*TransactionDatatype).ResetTransaction
 //@   mode math
 //@   props C09 C13 C15
 //@   ghost-exit its.$rbSeq := its.BaseDatatype.opID.Seq
+//@   ghost-exit its.$rbID := its.BaseDatatype.id
 //@   requires its.BaseDatatype != nil && its.BaseDatatype.Datatype != nil && its.BaseDatatype.ctx != nil && its.BaseDatatype.opID != nil
 //@   ensures[ops-cleared] result == nil ==> len(its.rollbackOps) == 0
 //@   ensures[error-changes-nothing] result != nil ==> len(its.rollbackOps) == old(len(its.rollbackOps))
-//@   ensures[rollback-point-carries-the-current-count] its.$rbSeq == its.BaseDatatype.opID.Seq && its.BaseDatatype.opID.Seq == old(its.BaseDatatype.opID.Seq)
-//@   modifies TransactionDatatype.rollbackSnapshot, TransactionDatatype.rollbackMeta, TransactionDatatype.rollbackOps, TransactionDatatype.$rbSeq, G:lastMarshaled
+//@   ensures[rollback-point-carries-the-current-count] its.$rbSeq == its.BaseDatatype.opID.Seq && its.BaseDatatype.opID.Seq == old(its.BaseDatatype.opID.Seq) && its.$rbID == its.BaseDatatype.id && its.BaseDatatype.id == old(its.BaseDatatype.id)
+//@   modifies TransactionDatatype.rollbackSnapshot, TransactionDatatype.rollbackMeta, TransactionDatatype.rollbackOps, TransactionDatatype.$rbSeq, TransactionDatatype.$rbID, G:lastMarshaled
 
 // checkOptionAndError: what a reply does before its operations are applied.
 //  - an error reply is turned into a returned error, never a panic, and leaves checkpoint,
@@ -146,7 +149,7 @@ package datatypes
 //@   ensures[subscribe-checkpoint]  result == nil && ppp.GetPushPullPackOption().HasSubscribeBit() ==> its.checkPoint.Cseq == ppp.CheckPoint.Cseq && math(its.checkPoint.Sseq) + len(ppp.Operations) == math(ppp.CheckPoint.Sseq) + (ppp.CheckPoint.Sseq < len(ppp.Operations) ? 18446744073709551616 : 0)
 //@   ensures[subscribe-resets]      result == nil && ppp.GetPushPullPackOption().HasSubscribeBit() ==> len(its.localBuffer) == 0 && its.opID.Seq == 0
 //@   ensures[subscribe-rollback-point-is-the-reset-state] result == nil && ppp.GetPushPullPackOption().HasSubscribeBit() ==> its.TransactionDatatype.$rbSeq == 0
-//@   modifies WiredDatatype.localBuffer, model.OperationID.Seq, model.CheckPoint.Sseq, model.CheckPoint.Cseq, SnapshotDatatype.Snapshot, TransactionDatatype.rollbackSnapshot, TransactionDatatype.rollbackMeta, TransactionDatatype.rollbackOps, TransactionDatatype.$rbSeq, G:lastMarshaled
+//@   modifies WiredDatatype.localBuffer, model.OperationID.Seq, model.CheckPoint.Sseq, model.CheckPoint.Cseq, SnapshotDatatype.Snapshot, TransactionDatatype.rollbackSnapshot, TransactionDatatype.rollbackMeta, TransactionDatatype.rollbackOps, TransactionDatatype.$rbSeq, TransactionDatatype.$rbID, G:lastMarshaled
 
 // ReceiveRemoteModelOperations cuts the received operations into units: a transaction
 // operation announces the length of its unit. Safety for ALL inputs: a truncated unit
@@ -197,6 +200,7 @@ package datatypes
 //@   ensures[handlers-told-once]      spawned("datatypes.(*WiredDatatype).callHandlers") == old(spawned("datatypes.(*WiredDatatype).callHandlers")) + 1
 //@   ensures[error-reply-changes-nothing] old(ppp.GetPushPullPackOption().HasErrorBit()) ==> its.checkPoint.Sseq == old(its.checkPoint.Sseq) && its.checkPoint.Cseq == old(its.checkPoint.Cseq) && len(its.localBuffer) == old(len(its.localBuffer)) && its.opID.Seq == old(its.opID.Seq) && G.receiveCalls == old(G.receiveCalls) && its.state == old(its.state)
 //@   ensures[plain-reply-applied-once] !old(ppp.GetPushPullPackOption().HasErrorBit()) && !old(ppp.GetPushPullPackOption().HasSubscribeBit()) ==> G.receiveCalls == old(G.receiveCalls) + 1
+//@   ensures[after-a-subscribe-reply-the-rollback-point-is-the-subscribed-datatype] !old(ppp.GetPushPullPackOption().HasErrorBit()) && old(ppp.GetPushPullPackOption().HasSubscribeBit()) && old(dueTo(its.state)) && G.receiveCalls > old(G.receiveCalls) ==> its.TransactionDatatype.$rbID == its.id && its.id == ppp.DUID
 //@   ensures[a-stale-or-repeated-reply-hands-nothing-to-the-datatype-in-any-state] !old(ppp.GetPushPullPackOption().HasErrorBit()) && !old(ppp.GetPushPullPackOption().HasSubscribeBit()) && old(cpInRange(its.checkPoint, ppp.CheckPoint)) && old(pulledOf(its.checkPoint, ppp.CheckPoint)) <= 0 ==> G.lastReceived == 0
 //@   modifies *
 
